@@ -25,8 +25,8 @@ from dataclasses import dataclass, field
 VERIF = os.path.dirname(os.path.dirname(os.path.abspath(__file__)))
 REPO = os.environ.get("PYRTCM_REPO", "/repo")
 SRC = os.environ.get("PYRTCM_SRC", os.path.join(REPO, "src"))
-OUT = os.path.join(VERIF, "out")
-EVIDENCE_DIR = os.path.join(VERIF, "evidence")
+OUT = os.environ.get("VERIF_OUT_DIR", os.path.join(VERIF, "out"))
+EVIDENCE_DIR = os.environ.get("VERIF_EVIDENCE_DIR", os.path.join(VERIF, "evidence"))
 KNOWN = os.path.join(VERIF, "known_findings.json")
 NPROC = int(os.environ.get("VERIF_NPROC", "16"))
 
